@@ -81,6 +81,7 @@ Plan parse_plan(const std::string &text) {
             p.qcap = kv.u64("qcap", 64);
             p.tend = kv.u64("tend", 100000000ULL);
             p.quiet_t = kv.u64("quiet", 0);
+            p.drain = kv.u64("drain", 60000000ULL);
             p.rseed = kv.u64("rseed", 1);
             p.skew[0] = kv.i64("skew0"); p.skew[1] = kv.i64("skew1"); p.skew[2] = kv.i64("skew2");
             p.stdin_eof = kv.u64("eof", 0);
@@ -268,6 +269,7 @@ extern "C" void __sanitizer_cov_trace_pc_guard(uint32_t *guard) {
     if (!t) return;
     Node &n = w->nodes[t->id];
     if (!n.in_handler) return;
+    n.last_pc = (uint64_t)__builtin_return_address(0);
     if (++n.handler_steps > w->step_budget) {
         uint64_t pc = (uint64_t)__builtin_return_address(0);
         std::string fn = sim::g_symtab.func(pc);
@@ -438,6 +440,13 @@ void exec_plan(const std::string &text, bool verbose) {
     setup_nodes(rs);
 
     const bool c19 = p.prop == "C19";
+    w.on_call_budget = [c19](Node &n) {
+        std::string fn = sim::g_symtab.func(n.last_pc);
+        n.in_handler = false;
+        if (c19) violation(strf("crash:step-budget:%s", fn.c_str()), strf("%s made more than %llu system calls handling one datagram", n.name.c_str(), (unsigned long long)g_rs->w->call_budget));
+        violation(strf("step-budget:%s", fn.c_str()), strf("%s made more than %llu system calls after receiving frame#%llu without returning to recv/poll",
+                                                           n.name.c_str(), (unsigned long long)g_rs->w->call_budget, (unsigned long long)n.handler_frame));
+    };
     // ---- hooks
     w.hooks.on_can_read = [](World &, int node, const CanRec &c) {
         if (node == 0) g_rs->pending_cargo.push_back(c);
@@ -454,7 +463,7 @@ void exec_plan(const std::string &text, bool verbose) {
             rs.pending_cargo.clear();
         }
         // experiment ends: stop feeding the listener shortly before t_end so that it can drain
-        if (w.now + 60000000ULL > w.t_origin + rs.plan.tend) return;
+        if (w.now + rs.plan.drain > w.t_origin + rs.plan.tend) return;
         bool probe = rs.quiet;
         apply_transport(rs, node, f);
         if (probe && !c19 && node != rs.listener) rs.probe_expect[f.id] = expected_effects(rs, f);
@@ -532,7 +541,12 @@ void exec_plan(const std::string &text, bool verbose) {
             }
         });
     }
-    if (p.quiet_t) w.at(w.t_origin + p.quiet_t, [&w] { g_rs->quiet = true; w.rxq_cap = 4096; w.log("phase-quiet"); });
+    if (p.quiet_t) w.at(w.t_origin + p.quiet_t, [&w] {
+        g_rs->quiet = true;
+        w.rxq_cap = 4096;
+        for (auto &n : w.nodes) n.stall_until = 0;  // faults stop here
+        w.log("phase-quiet");
+    });
 
     w.run(w.t_origin + p.tend, 4000000);
 
@@ -545,10 +559,12 @@ void exec_plan(const std::string &text, bool verbose) {
     } else {
         Node &ln = w.nodes[rs.listener];
         sim::Task *lt = w.tasks.get(ln.task);
-        if (lt->state != sim::Task::BLOCKED)
+        // (crf-listener in talker mode runs a periodic 125 us transmit timer and is legitimately busy at any instant)
+        if (lt->state != sim::Task::BLOCKED && p.scen != "crfT")
             violation("probe-lost:not-idle", strf("listener is not waiting for input at the end of the run (state %d)", (int)lt->state));
+        // (its ETH_P_ALL socket also taps its own 8 kHz transmissions, so its queue is never reliably empty either)
         for (auto &e : w.fds)
-            if (e.node == rs.listener && (e.kind == FdEnt::PACKET || e.kind == FdEnt::UDP) && !e.rxq.empty())
+            if (e.node == rs.listener && (e.kind == FdEnt::PACKET || e.kind == FdEnt::UDP) && !e.rxq.empty() && p.scen != "crfT")
                 violation("probe-lost:unread", strf("%zu datagrams still unread at the end of the run", e.rxq.size()));
         if (rs.effects_after_quiet < rs.probe_cargo)
             violation("probe-lost:effect", strf("after the faults stopped the listener received %llu well-formed datagrams that should have produced %llu outputs, but produced %llu",
